@@ -1,6 +1,7 @@
 package main
 
 import (
+	"fmt"
 	"context"
 	"encoding/json"
 	"errors"
@@ -206,6 +207,16 @@ func c07Handle(raw []byte) map[string]interface{} {
 		// a host function that panics: the Go-panic path of the spawned goroutine
 		_ = s.Add("boom", &tengo.UserFunction{Name: "boom", Value: func(args ...tengo.Object) (tengo.Object, error) {
 			panic("boom")
+		}})
+		// panic values that are neither strings nor errors
+		_ = s.Add("boom2", &tengo.UserFunction{Name: "boom2", Value: func(args ...tengo.Object) (tengo.Object, error) {
+			panic(42)
+		}})
+		_ = s.Add("boom3", &tengo.UserFunction{Name: "boom3", Value: func(args ...tengo.Object) (tengo.Object, error) {
+			panic(struct{ A, B int }{1, 2})
+		}})
+		_ = s.Add("boom4", &tengo.UserFunction{Name: "boom4", Value: func(args ...tengo.Object) (tengo.Object, error) {
+			panic(fmt.Errorf("an error value as panic value"))
 		}})
 		return s.Compile()
 	}
